@@ -11,6 +11,7 @@ from ..cfg import CFG, describe_path
 from ..model import AnalysisError, FuncInfo
 from ..nodes import DESER_MOD, deser_nodes, is_ve, own_methods
 from ..util import dotted, names_in, norm, short, walk_no_nested
+from .common_object import object_protocol_rule
 from .common_counter import check_counters, counter_mutants
 
 ERRORS_MOD = "apischema.validation.errors"
@@ -28,13 +29,49 @@ def discover_helpers(model) -> Dict[str, FuncInfo]:
             p0 = fi.params[0]
             tests_none = any(
                 isinstance(n, ast.Compare) and isinstance(n.left, ast.Name) and n.left.id == p0
-                and isinstance(n.ops[0], ast.Is) and isinstance(n.comparators[0], ast.Constant) and n.comparators[0].value is None
+                and isinstance(n.ops[0], (ast.Is, ast.IsNot)) and isinstance(n.comparators[0], ast.Constant) and n.comparators[0].value is None
                 for n in walk_no_nested(fi.node)
             )
             returns_p0 = any(isinstance(n, ast.Return) and isinstance(n.value, ast.Name) and n.value.id == p0 for n in walk_no_nested(fi.node))
-            if tests_none and returns_p0:
+            if (tests_none and returns_p0) or fi.name in ("set_child_error", "extend_errors", "update_children_errors"):
                 out[fi.name] = fi
     return out
+
+
+def helper_contract(ctx, fns):
+    from ..boolx import BoolEval, Unknown
+    from ..pathcond import _leaves, complements, parents_of, path_condition
+    for fi in fns:
+        acc, items = fi.params[0], set(fi.params[1:])
+        ev = BoolEval(complements({f"{acc} is None": "none"}))
+        parents = parents_of(fi.node)
+        body = [s_ for s_ in fi.node.body if not (isinstance(s_, ast.Expr) and isinstance(s_.value, ast.Constant))]
+        ctx.check(_leaves(body), "C02.R8", f"{fi.name}:total", fi.node.body[-1], f"{fi.name} can fall off its end and return None: the accumulated errors are lost", fi, fi.node, detail="every path returns")
+        for r in walk_no_nested(fi.node):
+            if not isinstance(r, ast.Return):
+                continue
+            try:
+                cond = ev.compile(path_condition(fi.node, r, parents))
+                when_none, when_some = bool(cond({"none": True})), bool(cond({"none": False}))
+            except Unknown as err:
+                ctx.undecided("C02.R8", f"{fi.name}: {err}")
+                continue
+            if isinstance(r.value, ast.Name) and r.value.id == acc:
+                # returns the accumulator: only when it is not None, and after a store of all items in the same block
+                block = next(b for _, b in ((n_, getattr(parents[r], n_, None)) for n_ in ("body", "orelse")) if isinstance(b, list) and r in b)
+                stored = set()
+                for s_ in block[: block.index(r)]:
+                    if isinstance(s_, ast.Assign) and isinstance(s_.targets[0], ast.Subscript) and norm(s_.targets[0].value) == acc:
+                        stored |= names_in(s_.targets[0].slice) | names_in(s_.value)
+                    if isinstance(s_, ast.Expr) and isinstance(s_.value, ast.Call) and isinstance(s_.value.func, ast.Attribute) and norm(s_.value.func.value) == acc and s_.value.func.attr in ("extend", "update", "append"):
+                        for a in s_.value.args:
+                            stored |= names_in(a)
+                ctx.check(not when_none and items <= stored, "C02.R8", f"{fi.name}:return-acc", r,
+                          f"{fi.name} returns `{acc}` " + ("on the None path" if when_none else f"without storing {sorted(items - stored)} into it") + ": the new error is lost", fi, r, detail=f"stores {sorted(items)} then returns {acc}")
+            else:
+                got = names_in(r.value) if r.value is not None else set()
+                ctx.check(not when_some and items <= got, "C02.R8", f"{fi.name}:return-fresh", r,
+                          f"{fi.name} returns a fresh container " + (f"while `{acc}` is not None: the errors accumulated so far are dropped" if when_some else f"that ignores {sorted(items - got)}"), fi, r, detail=f"only when {acc} is None, built from {sorted(items)}")
 
 
 def scope_functions(ctx) -> List[FuncInfo]:
@@ -375,6 +412,11 @@ def check(ctx):
     r5(ctx)
     # ---------------- R6
     check_counters(ctx, "C02.R6")
+    ctx.rule("C02.R7", "object nodes keep a failed field's error exactly when the field is required or does not fall back on its default (aggregate fields: both messages and children)", floor=10)
+    object_protocol_rule(ctx, "C02.R7", ["child"])
+    # ---------------- R8: contract of the accumulation helpers
+    ctx.rule("C02.R8", "accumulation helpers: a fresh container only when the accumulator is None, otherwise the accumulator after storing every item; no path drops the item", floor=6)
+    helper_contract(ctx, [helpers[n] for n in ("set_child_error", "extend_errors", "update_children_errors")])
 
 
 def _is_set_expr(e) -> bool:
@@ -509,6 +551,15 @@ def mutants(mb):
     mb.add_text("requiring-unsorted", P, "                requiring = sorted(field.required_by & data.keys())", "                requiring = field.required_by & data.keys()", "C02.R5", "ObjectMethod")
     mb.add_text("errors-unsorted", "apischema/validation/errors.py", "            child_keys = sorted(self.children)\n", "            child_keys = list(self.children)\n", "C02.R5", "_errors")
     counter_mutants(mb, "C02.R6")
+    mb.add_text("optout-and", P, "                    if field.required or not field.fall_back_on_default:\n                        field_errors = set_child_error(field_errors, field.alias, err)\n            elif field.required:\n                field_errors = set_child_error(\n                    field_errors, field.alias, ValidationError(self.missing)\n                )\n            elif field.required_by", "                    if field.required and not field.fall_back_on_default:\n                        field_errors = set_child_error(field_errors, field.alias, err)\n            elif field.required:\n                field_errors = set_child_error(\n                    field_errors, field.alias, ValidationError(self.missing)\n                )\n            elif field.required_by", "C02.R7", "ObjectMethod:child")
+    mb.add_text("helper-store-dropped", P, "        errors[key] = error\n        return errors", "        return errors", "C02.R8", "set_child_error:return-acc")
+    mb.add_text("helper-none-test-flipped", P, "    if errors is None:\n        return list(messages)\n    else:\n        errors.extend(messages)\n        return errors", "    if errors is not None:\n        return list(messages)\n    else:\n        errors.extend(messages)\n        return errors", "C02.R8", "extend_errors")
+    mb.add_text("helper-fresh-ignores-item", P, "        return dict(children)", "        return {}", "C02.R8", "update_children_errors:return-fresh")
+    mb.add_text("helper-no-return", P, "        errors.update(children)\n        return errors", "        errors.update(children)", "C02.R8", "update_children_errors:total")
+    mb.add_text("neg-helper-guard-form", P, "    if errors is None:\n        return {key: error}\n    else:\n        errors[key] = error\n        return errors", "    if errors is not None:\n        errors[key] = error\n        return errors\n    return {key: error}", negative=True)
+    mb.add_text("flattened-fbd-polarity", P, "                    if not flattened_field.fall_back_on_default:", "                    if flattened_field.fall_back_on_default:", "C02.R7", "ObjectMethod:aggregate")
+    mb.add_text("pattern-children-dropped", P, "                    if not pattern_field.fall_back_on_default:\n                        errors = extend_errors(errors, err.messages)\n                        field_errors = update_children_errors(\n                            field_errors, err.children\n                        )", "                    if not pattern_field.fall_back_on_default:\n                        errors = extend_errors(errors, err.messages)", "C02.R7", "ObjectMethod:aggregate:halves")
+    mb.add_text("optout-polarity", P, "                    if field.required or not field.fall_back_on_default:\n                        field_errors = set_child_error(field_errors, field.alias, err)\n            elif field.required:\n                field_errors = set_child_error(\n                    field_errors, field.alias, ValidationError(self.missing)\n                )\n        has_discriminator", "                    if field.required or field.fall_back_on_default:\n                        field_errors = set_child_error(field_errors, field.alias, err)\n            elif field.required:\n                field_errors = set_child_error(\n                    field_errors, field.alias, ValidationError(self.missing)\n                )\n        has_discriminator", "C02.R7", "SimpleObjectMethod:child")
     # negatives
     mb.add_text("neg-if-else-swap", P, "        if field_errors:\n            raise ValidationError([], field_errors)\n        if has_discriminator:", "        if not field_errors:\n            pass\n        else:\n            raise ValidationError([], field_errors)\n        if has_discriminator:", negative=True)
     mb.add_text("neg-rename-acc", P, "        elt_errors: Optional[ErrorDict] = None\n        values: list = [None] * len(data)\n        for i, elt in enumerate(data):\n            try:\n                values[i] = self.value_method.deserialize(elt)\n            except ValidationError as err:\n                elt_errors = set_child_error(elt_errors, i, err)\n        validate_constraints(data, self.constraints, elt_errors)",
